@@ -21,7 +21,7 @@ M = __name__
 # exactly the classes the property statement catalogues (a stray graph end or a changed options row are not in it)
 CLASSES = ["entry_id_big", "ref_big", "ref_unfilled", "datatype_zero", "datatype_disabled", "repeat_no_prev",
            "repeat_in_quoted", "no_options", "wrong_row_kind", "triple_outside_graph",
-           "prefix_ref_disabled", "name_zero_overflow", "ref_unfilled_sparse"]
+           "prefix_ref_disabled", "name_zero_overflow", "ref_unfilled_sparse", "repeat_in_nested_quoted"]
 BIG = [None, 2**32 - 1]
 
 
@@ -113,6 +113,9 @@ def inject(rows, cls, pos, big, phys):
             row[1][2] = ("triple", [("bnode", "q"), None, ("bnode", "r")])  # rdflib has no quoted triples: must still raise
         else:
             row[1][q[0]][1][1] = None
+    elif cls == "repeat_in_nested_quoted":
+        # a quoted triple whose SUBJECT is a complete quoted triple and whose predicate is left unset
+        row[1][2] = ("triple", [("triple", [("bnode", "a"), ("bnode", "b"), ("bnode", "c")]), None, ("bnode", "r")])
     elif cls == "no_options":
         return rows[1:] if pos == 0 else None
     elif cls == "wrong_row_kind":
